@@ -97,6 +97,8 @@ class Contract:
     # replay of methods: python expression building `self` for the real call; it may use the module's names and
     # self_<field> (values of the model for the declared self_fields)
     self.replay_self = g("replay_self", None)
+    self.frame_ok = set(g("frame_ok", []))
+    self.frame_props = set(g("frame_props", []))  # properties under which an ASSUMED contract's frame condition is checked     # state outside the arguments that the function may legitimately mutate
     self.pure_fn = g("pure_fn", None)
     # functional contracts: the result as an expression of the parameters (used where no fresh symbol may be
     # introduced: inside comprehensions over symbolic sequences and quantifier bodies)
